@@ -21,7 +21,7 @@ pub mod c19;
 
 use crate::engine::Cfg;
 
-pub const SCENARIOS: &[&str] = &["c01", "c02a", "c02b", "c03", "c04a", "c04b", "c04c", "c04d", "c05", "c06mpsc", "c06spsc", "c06mpmc", "c08", "c09", "c10s", "c10f", "c11c", "c11b", "c11w", "c12", "c13", "c13d", "c14s", "c14sel", "c15", "c16q", "c16sel", "c17s", "c17d", "c18t", "c18c", "c19v1", "c19plain", "c19wake"];
+pub const SCENARIOS: &[&str] = &["c01", "c02a", "c02b", "c03", "c04a", "c04b", "c04c", "c04d", "c05", "c06mpsc", "c06spsc", "c06mpmc", "c08", "c08a", "c08m", "c09", "c10s", "c10f", "c11c", "c11b", "c11w", "c12", "c13", "c13d", "c13u", "c14s", "c14sel", "c15", "c16q", "c16sel", "c17s", "c17d", "c18t", "c18c", "c19v1", "c19plain", "c19wake"];
 
 pub fn run(name: &str, seed: u64, ov: impl FnMut(&mut Cfg)) -> ! {
     match name {
@@ -38,6 +38,8 @@ pub fn run(name: &str, seed: u64, ov: impl FnMut(&mut Cfg)) -> ! {
         "c06spsc" => c06::run(seed, Some(c06::Flavor::Spsc), ov),
         "c06mpmc" => c06::run(seed, Some(c06::Flavor::Mpmc), ov),
         "c08" => c08::run(seed, ov),
+        "c08a" => c08::run_aimed(seed, ov),
+        "c08m" => c08::run_many(seed, ov),
         "c09" => c09::run(seed, ov),
         "c10s" => c10::run_sem(seed, ov),
         "c10f" => c10::run_flag(seed, ov),
@@ -47,6 +49,7 @@ pub fn run(name: &str, seed: u64, ov: impl FnMut(&mut Cfg)) -> ! {
         "c12" => c12::run(seed, ov),
         "c13" => c13::run(seed, ov),
         "c13d" => c13::run_detached(seed, ov),
+        "c13u" => c13::run_unwind(seed, ov),
         "c14s" => c14::run_scope(seed, ov),
         "c14sel" => c14::run_select(seed, ov),
         "c15" => c15::run(seed, ov),
